@@ -150,7 +150,24 @@ def discharge(obligations, use_cvc5=True):
                 results[idx]['ms'] += ms
                 if res in ('sat', 'unsat'):      # equisatisfiable query, same solver: both answers count
                     results[idx].update(result=res, solver='z3-5.1 (lambda-lifted)', out=out)
+        # third pass: what is still open gets three times the budget (verdicts must not depend on how busy the machine is)
+        late = [(j[0], j[1], wd, False, 3 * Z3_TIMEOUT_S) for j in jobs if results[j[0]]['result'] == 'unknown' and j[4] >= Z3_TIMEOUT_S]
+        if late and not os.environ.get('PYVC_NO_RETRY'):
+            with cf.ThreadPoolExecutor(max_workers=WORKERS) as pool:
+                for idx, res, solver, ms, out in pool.map(_solve_plain, late):
+                    results[idx]['ms'] += ms
+                    if res in ('sat', 'unsat'): results[idx].update(result=res, solver=solver + ' (extended budget)', out=out)
     return results
+
+
+def _solve_plain(args):
+    idx, text, workdir, _, tmo = args
+    path = os.path.join(workdir, f'ob{idx}.late.smt2')
+    with open(path, 'w') as f: f.write(text)
+    res, out, dt = _run([Z3_BIN, '-smt2', f'-T:{tmo}', path], tmo + 5)
+    try: os.unlink(path)
+    except OSError: pass
+    return idx, res, 'z3-5.1', round(dt * 1000), out[:400]
 
 
 def _solve_lifted(args):
